@@ -95,6 +95,13 @@ def histories(which):
         d = ifg.data
         fin = d[np.isfinite(d)]
         check('mean-ignores-invalid', bool(np.isclose(U.mean(d), fin.mean())))
+        # "the reported statistics ignore invalid samples": each one equals the statistic of the valid samples alone
+        check('pv-ignores-invalid', bool(np.isclose(U.pv(d), fin.max() - fin.min())))
+        check('rms-ignores-invalid', bool(np.isclose(U.rms(d), np.sqrt((fin ** 2).mean()))))
+        check('std-ignores-invalid', bool(np.isclose(U.std(d), fin.std())))
+        check('Sa-ignores-invalid', bool(np.isclose(U.Sa(d), abs(fin - fin.mean()).mean())))
+        if hasattr(ifg, 'Sa'):
+            check('interferogram-Sa', bool(np.isclose(ifg.Sa, abs(fin - fin.mean()).mean())))
         check('rms2=std2+mean2', bool(np.isclose(U.rms(d) ** 2, U.std(d) ** 2 + U.mean(d) ** 2)))
         check('Sa<=std<=PV', bool(U.Sa(d) <= U.std(d) + 1e-12 and U.std(d) <= U.pv(d) + 1e-12))
         check('interferogram-properties', bool(np.isclose(ifg.rms, U.rms(d)) and np.isclose(ifg.pv, U.pv(d)) and np.isclose(ifg.std, U.std(d))))
